@@ -15,6 +15,7 @@ PN = 'hickory_proto::rr::domain::name::Name::'
 PL = 'hickory_proto::rr::lower_name::LowerName::'
 LEN1, LEN2 = r'TinyVec::len\(arg1\.label_ends\)', r'TinyVec::len\(arg2\.label_ends\)'
 HALF = r'const:<SerialNumber as PartialOrd>::partial_cmp::SERIAL_BITS_HALF'
+DL, AL = r'PrefixSet::get_lpm\(arg1\.deny,arg2\)', r'PrefixSet::get_lpm\(arg1\.allow,arg2\)'
 
 # name -> (path, [(term regex, [guard regex, ...]), ...], why)
 SIMPLE = {
@@ -66,6 +67,19 @@ SIMPLE = {
     'NSEC3::type_set': ('hickory_proto::dnssec::rdata::nsec3::NSEC3::type_set', [(r'^arg1\.type_bit_maps$', [])], 'accessor'),
     'Edns::version': ('hickory_proto::op::edns::Edns::version', [(r'^arg1\.version$', [])], 'accessor'),
     'Edns::max_payload': ('hickory_proto::op::edns::Edns::max_payload', [(r'^arg1\.max_payload$', [])], 'accessor'),
+    'AccessControl::allow': ('hickory_server::access::AccessControl::allow', [
+        (r'^InnerAccessControl::allow\(arg1\.ipv4,into<Ipv4Net>\(IpAddr::to_canonical\(arg2\)@V4\.0\)\)$', [r'^is\(IpAddr::to_canonical\(arg2\),V4\)$']),
+        (r'^InnerAccessControl::allow\(arg1\.ipv6,into<Ipv6Net>\(IpAddr::to_canonical\(arg2\)@V6\.0\)\)$', [r'^is\(IpAddr::to_canonical\(arg2\),V6\)$'])],
+        'the canonical (v4-mapped folded) source address is evaluated against the list of its own family'),
+    'InnerAccessControl::allow': ('hickory_server::access::InnerAccessControl::allow', [
+        (rf'^lt\(Prefix::prefix_len\({DL}@Some\.0\),Prefix::prefix_len\({AL}@Some\.0\)\)$', [rf'^ok\({DL}\)$', rf'^ok\({AL}\)$']),
+        (r'^false$', [rf'^ok\({DL}\)$', rf'^!ok\({AL}\)$']),
+        (r'^true$', [rf'^!ok\({DL}\)$', rf'^ok\({AL}\)$']),
+        (r'^true$', [rf'^!ok\({DL}\)$', rf'^!ok\({AL}\)$', r"^ok\(<Iter<'_;P> as Iterator>::next\(PrefixSet::iter\(arg1\.deny\)\)\)$"]),
+        (r'^false$', [rf'^!ok\({DL}\)$', rf'^!ok\({AL}\)$', r"^!ok\(<Iter<'_;P> as Iterator>::next\(PrefixSet::iter\(arg1\.deny\)\)\)$", r"^ok\(<Iter<'_;P> as Iterator>::next\(PrefixSet::iter\(arg1\.allow\)\)\)$"]),
+        (r'^true$', [rf'^!ok\({DL}\)$', rf'^!ok\({AL}\)$', r"^!ok\(<Iter<'_;P> as Iterator>::next\(PrefixSet::iter\(arg1\.deny\)\)\)$", r"^!ok\(<Iter<'_;P> as Iterator>::next\(PrefixSet::iter\(arg1\.allow\)\)\)$"])],
+        'deny and allow are both matched by LONGEST prefix; a source in both is served iff the allow network is the more specific; in deny only -> refused; '
+        'in allow only -> served; in neither -> served unless only allow networks are configured'),
     'RecordType::is_any': ('hickory_proto::rr::record_type::RecordType::is_any', [(r'^eq:RecordType\(RecordType::ANY,arg1\)$|^eq:RecordType\(arg1,RecordType::ANY\)$|^is\(arg1,ANY\)$', [])], 'ANY only'),
 }
 
@@ -132,7 +146,7 @@ SPECIAL = {'SerialNumber::partial_cmp': _serial, 'Name::into_wildcard': _into_wi
 CLOSURE = {'Name::zone_of': ['Name::zone_of_with', 'Name::zone_of_with::{closure@all#0}'], 'Name::zone_of_case': ['Name::zone_of_with', 'Name::zone_of_with::{closure@all#0}'],
            'Name::base_name': ['Name::trim_to'], 'Name::is_wildcard': ['Name::is_wildcard::{closure@is_some_and#0}'],
            'LowerName::zone_of': ['Name::zone_of_case'], 'LowerName::base_name': ['Name::base_name'], 'LowerName::is_wildcard': ['Name::is_wildcard'],
-           'LowerName::into_wildcard': ['Name::into_wildcard'], 'LowerName::is_root': ['Name::is_root'], 'DS::covers': ['DS::covers::{closure@map#0}', 'DNSKEY::zone_key']}
+           'LowerName::into_wildcard': ['Name::into_wildcard'], 'LowerName::is_root': ['Name::is_root'], 'DS::covers': ['DS::covers::{closure@map#0}', 'DNSKEY::zone_key'], 'AccessControl::allow': ['InnerAccessControl::allow']}
 
 
 def check(cx, rule, names):
